@@ -1,0 +1,68 @@
+//go:build verif
+
+// Lemma functions for /verif/govc (never compiled without the verif tag): executable statements of
+// spec-level facts, verified against the contracts of the functions they call.
+
+package ofbase
+
+func lemmaSym8(e *Encoder, v uint8) (uint8, int, int) {
+	l := len(e.Bytes())
+	e.PutUint8(v)
+	d := NewDecoder(e.Bytes())
+	d.Skip(l)
+	r := d.ReadUint8()
+	return r, d.Offset(), l
+}
+
+func lemmaSym16(e *Encoder, v uint16) (uint16, int, int) {
+	l := len(e.Bytes())
+	e.PutUint16(v)
+	d := NewDecoder(e.Bytes())
+	d.Skip(l)
+	r := d.ReadUint16()
+	return r, d.Offset(), l
+}
+
+func lemmaSym32(e *Encoder, v uint32) (uint32, int, int) {
+	l := len(e.Bytes())
+	e.PutUint32(v)
+	d := NewDecoder(e.Bytes())
+	d.Skip(l)
+	r := d.ReadUint32()
+	return r, d.Offset(), l
+}
+
+func lemmaSym64(e *Encoder, v uint64) (uint64, int, int) {
+	l := len(e.Bytes())
+	e.PutUint64(v)
+	d := NewDecoder(e.Bytes())
+	d.Skip(l)
+	r := d.ReadUint64()
+	return r, d.Offset(), l
+}
+
+func lemmaSym128(e *Encoder, v Uint128) (Uint128, int, int) {
+	l := len(e.Bytes())
+	e.PutUint128(v)
+	d := NewDecoder(e.Bytes())
+	d.Skip(l)
+	r := d.ReadUint128()
+	return r, d.Offset(), l
+}
+
+// One mixed sequence through a fresh encoder, read back in order to the end.
+func lemmaSymSequence(a uint8, b uint16, c uint32, d uint64, x Uint128) (uint8, uint16, uint32, uint64, Uint128, int) {
+	e := NewEncoder()
+	e.PutUint8(a)
+	e.PutUint16(b)
+	e.PutUint32(c)
+	e.PutUint64(d)
+	e.PutUint128(x)
+	dec := NewDecoder(e.Bytes())
+	a2 := dec.ReadUint8()
+	b2 := dec.ReadUint16()
+	c2 := dec.ReadUint32()
+	d2 := dec.ReadUint64()
+	x2 := dec.ReadUint128()
+	return a2, b2, c2, d2, x2, dec.Length()
+}
